@@ -108,6 +108,19 @@ def splitLines : (List Nat) → (List Nat) → List (List Nat)
   | [], cur => [cur.reverse]
   | c :: r, cur => if c = 10 then (10 :: cur).reverse :: splitLines r [] else splitLines r (c :: cur)
 
+mutual
+/-- the row with every time floored to a whole second (what `time.RFC3339` without the fraction can express) -/
+def truncTime : Value → Value
+  | .time ns loc => .time (ns - ns % 1000000000) loc
+  | .list xs => .list (truncTimes xs)
+  | .struct xs => .struct (truncTimes xs)
+  | .tuple xs => .tuple (truncTimes xs)
+  | v => v
+def truncTimes : List Value → List Value
+  | [] => []
+  | x :: xs => truncTime x :: truncTimes xs
+end
+
 def judgeJsonLines (op : Op) : List (List Value) → List (List Nat) → Nat → String
   | [], [], _ => "ok"
   | row :: rows, line :: lines, i =>
@@ -116,7 +129,9 @@ def judgeJsonLines (op : Op) : List (List Value) → List (List Nat) → Nat →
       match Json.decode line with
       | none => s!"bad line-{i}-is-not-valid-json"
       | some j =>
-        if !rowMatches op.lib op.names op.tys row j then s!"bad line-{i}-decodes-to-different-values"
+        if !rowMatches op.names op.tys row j then
+          if rowMatches op.names op.tys (truncTimes row) j then s!"known time-subsecond-truncated line-{i}"
+          else s!"bad line-{i}-decodes-to-different-values"
         else if utf8Values op.lib row && utf8Tys op.tys && op.names.all (fun n => Utf8.valid n) && !Utf8.valid line then
           s!"bad line-{i}-is-not-utf8"
         else judgeJsonLines op rows lines (i + 1)
@@ -126,7 +141,9 @@ def judgeCsvRecs (op : Op) : List (List Value) → List (List (List Nat)) → Na
   | [], [], _ => "ok"
   | row :: rows, rec :: recs, i =>
     if !rowFits op.names op.tys row then judgeCsvRecs op rows recs (i + 1)
-    else if !(if row.isEmpty then rec == [[]] else csvRowOk op.lib row rec) then s!"bad record-{i}-decodes-to-different-values"
+    else if !(if row.isEmpty then rec == [[]] else csvRowOk row rec) then
+      if csvRowOk (truncTimes row) rec then s!"known time-subsecond-truncated record-{i}"
+      else s!"bad record-{i}-decodes-to-different-values"
     else judgeCsvRecs op rows recs (i + 1)
   | _, _, i => s!"bad record-count-differs-at-{i}"
 
